@@ -945,3 +945,79 @@ def _pkg_sort_definitions(srcs):
 
 
 VARIANTS.append(dict(id='PKG_S_sort_definitions', props=ALL + ['C05'], file='*', expect=[], kind='silent', where='', pkg_all_fn=_pkg_sort_definitions))
+
+
+# ---- package-wide: guard clauses turned into if/else staircases, and the reverse
+def _exits_stmt_list(stmts):
+    if not stmts:
+        return False
+    s = stmts[-1]
+    if isinstance(s, (ast.Return, ast.Raise)):
+        return True
+    if isinstance(s, ast.If):
+        return bool(s.orelse) and _exits_stmt_list(s.body) and _exits_stmt_list(s.orelse)
+    return False
+
+
+def _stmt_lists(node):
+    for fld in ('body', 'orelse', 'finalbody'):
+        lst = getattr(node, fld, None)
+        if isinstance(lst, list) and lst and isinstance(lst[0], ast.stmt):
+            yield node, fld, lst
+            for c in lst:
+                if not isinstance(c, (ast.FunctionDef, ast.ClassDef)):
+                    yield from _stmt_lists(c)
+    for h in getattr(node, 'handlers', []) or []:
+        yield from _stmt_lists(h)
+
+
+def _pkg_nest_after_exit(srcs):
+    out, n = {}, 0
+    for fn, text in srcs.items():
+        if fn.endswith('luts.py'):
+            out[fn] = text
+            continue
+        t = ast.parse(text)
+        ch = False
+        for f in [x for x in ast.walk(t) if isinstance(x, ast.FunctionDef)]:
+            for node, fld, lst in list(_stmt_lists(f)):
+                for i, s in enumerate(lst):
+                    if isinstance(s, ast.If) and not s.orelse and _exits_stmt_list(s.body) and i + 1 < len(lst) and isinstance(node, (ast.FunctionDef, ast.If)) \
+                            and not any(isinstance(y, ast.FunctionDef) for y in lst[i + 1:]):
+                        s.orelse = lst[i + 1:]
+                        del lst[i + 1:]
+                        ch = True
+                        n += 1
+                        break
+        out[fn] = ast.unparse(t) + '\n' if ch else text
+    return out if n else None
+
+
+def _pkg_unnest_else(srcs):
+    out, n = {}, 0
+    for fn, text in srcs.items():
+        if fn.endswith('luts.py'):
+            out[fn] = text
+            continue
+        t = ast.parse(text)
+        ch = False
+        for f in [x for x in ast.walk(t) if isinstance(x, ast.FunctionDef)]:
+            for node, fld, lst in list(_stmt_lists(f)):
+                new = []
+                for s in lst:
+                    if isinstance(s, ast.If) and s.orelse and _exits_stmt_list(s.body) and not (len(s.orelse) == 1 and isinstance(s.orelse[0], ast.If)):
+                        tail = s.orelse
+                        s.orelse = []
+                        new.append(s)
+                        new.extend(tail)
+                        ch = True
+                        n += 1
+                    else:
+                        new.append(s)
+                setattr(node, fld, new)
+        out[fn] = ast.unparse(t) + '\n' if ch else text
+    return out if n else None
+
+
+VARIANTS.append(dict(id='PKG_S_nest_after_exit', props=ALL + ['C05'], file='*', expect=[], kind='silent', where='', pkg_all_fn=_pkg_nest_after_exit))
+VARIANTS.append(dict(id='PKG_S_unnest_else', props=ALL + ['C05'], file='*', expect=[], kind='silent', where='', pkg_all_fn=_pkg_unnest_else))
